@@ -3,6 +3,7 @@ package main
 import (
 	"fmt"
 	"go/token"
+	"go/types"
 	"sort"
 	"strings"
 
@@ -76,7 +77,15 @@ func checkC16(w *World, r *Report) {
 				srcP = p
 			}
 		}
-		if lockedP == nil || srcP == nil {
+		// the amount may travel inside a row struct handed to the helper (table-driven upgrade): its only math.Int field
+		rowP, rowField := rowAmountParam(split)
+		isAmt := func(v ssa.Value) bool {
+			if lockedP != nil {
+				return v == ssa.Value(lockedP)
+			}
+			return isFieldOfParam(v, rowP, rowField)
+		}
+		if (lockedP == nil && rowP == nil) || srcP == nil {
 			r.Unk("C16.split", "split helper parameters", w.Pos(split.Pos()), "amount / source pool parameter not found")
 		} else {
 			nsrc := 0
@@ -89,7 +98,7 @@ func checkC16(w *World, r *Report) {
 				if fresh {
 					switch fs.Field {
 					case "InitiallyLocked":
-						r.Check(fs.Store.Val == ssa.Value(lockedP), "C16.split", "new pool InitiallyLocked = the amount split off", pos, "the amount parameter", "the new pool is credited with another value than the one taken from the source")
+						r.Check(isAmt(fs.Store.Val), "C16.split", "new pool InitiallyLocked = the amount split off", pos, "the amount parameter", "the new pool is credited with another value than the one taken from the source")
 					case "Sent", "Withdrawn":
 						r.Check(isZeroIntValue(fs.Store.Val), "C16.split", "new pool "+fs.Field+" = 0", pos, "zero", "the new pool starts with a non-zero "+fs.Field)
 					}
@@ -103,7 +112,7 @@ func checkC16(w *World, r *Report) {
 				if fs.Field == "InitiallyLocked" && fs.FA.X == ssa.Value(srcP) {
 					if c, ok := isCallTo(fs.Store.Val, "math.Int.Sub"); ok {
 						a := c.Common().Args
-						okSub = loadOfField(a[0], "InitiallyLocked", func(b ssa.Value) bool { return b == ssa.Value(srcP) }) && a[1] == ssa.Value(lockedP)
+						okSub = loadOfField(a[0], "InitiallyLocked", func(b ssa.Value) bool { return b == ssa.Value(srcP) }) && isAmt(a[1])
 					}
 				}
 				r.Check(okSub, "C16.split", "source pool "+fs.Field+" reduced by the amount split off", pos, "InitiallyLocked = InitiallyLocked.Sub(amount)", "the source pool's ledger is changed by something else than subtracting the split amount from InitiallyLocked")
@@ -118,13 +127,13 @@ func checkC16(w *World, r *Report) {
 					if strings.HasSuffix(n, "math.Int.IsNegative") {
 						if s, ok := isCallTo(a[0], "math.Int.Sub"); ok {
 							sa := s.Common().Args
-							if gl, ok := isCallTo(sa[0], "VestingPool.GetCurrentlyLocked"); ok && gl.Common().Args[0] == ssa.Value(srcP) && sa[1] == ssa.Value(lockedP) {
+							if gl, ok := isCallTo(sa[0], "VestingPool.GetCurrentlyLocked"); ok && gl.Common().Args[0] == ssa.Value(srcP) && isAmt(sa[1]) {
 								return false, true
 							}
 						}
 					}
 					if strings.HasSuffix(n, "math.Int.LT") {
-						if gl, ok := isCallTo(a[0], "VestingPool.GetCurrentlyLocked"); ok && gl.Common().Args[0] == ssa.Value(srcP) && a[1] == ssa.Value(lockedP) {
+						if gl, ok := isCallTo(a[0], "VestingPool.GetCurrentlyLocked"); ok && gl.Common().Args[0] == ssa.Value(srcP) && isAmt(a[1]) {
 							return false, true
 						}
 					}
@@ -210,9 +219,24 @@ func checkC16(w *World, r *Report) {
 		}
 		// sum = exactly the four split amounts
 		var splitAmounts []string
+		splitAmtArgs := func(s *Site) []ssa.Value {
+			var out []ssa.Value
+			rp, rf := rowAmountParam(split)
+			for i, a := range s.Common().Args {
+				if typeString(a.Type()) == tInt {
+					out = append(out, a)
+				} else if rp != nil && i < len(split.Params) && split.Params[i] == rp {
+					// the row struct is handed over whole: the amount is its math.Int field
+					f := &ssa.Field{X: a, Field: rf}
+					setRegType(f, rp.Type().Underlying().(*types.Struct).Field(rf).Type())
+					out = append(out, f)
+				}
+			}
+			return out
+		}
 		for _, s := range cg.Sites[mavp] {
 			if s.Static == split {
-				for _, a := range s.Common().Args {
+				for _, a := range splitAmtArgs(s) {
 					if typeString(a.Type()) == tInt {
 						if g := globalOfLoad(a); g != nil {
 							splitAmounts = append(splitAmounts, g.Name())
@@ -248,10 +272,8 @@ func checkC16(w *World, r *Report) {
 			for _, e := range w.effectsBelow(mvps, func(s *Site) bool { return s.Static == split }, 2) {
 				nsp++
 				var amt ssa.Value
-				for _, a := range e.Site.Common().Args {
-					if typeString(a.Type()) == tInt {
-						amt = a
-					}
+				for _, a := range splitAmtArgs(e.Site) {
+					amt = a
 				}
 				over, field, ok := rowFieldOf(amt)
 				switch {
@@ -705,7 +727,23 @@ func tableFieldGlobals(v ssa.Value) []string {
 	}
 	arr, ok := base.(*ssa.Alloc)
 	if !ok {
-		return nil
+		// the table is a package-level variable: its backing array is built in the package initialiser
+		if g, isG := base.(*ssa.Global); isG && g.Pkg != nil {
+			if initf := g.Pkg.Func("init"); initf != nil {
+				for _, b := range initf.Blocks {
+					for _, in := range b.Instrs {
+						if st, isSt := in.(*ssa.Store); isSt && st.Addr == ssa.Value(g) {
+							if sl, isSl := st.Val.(*ssa.Slice); isSl {
+								arr, ok = sl.X.(*ssa.Alloc)
+							}
+						}
+					}
+				}
+			}
+		}
+		if !ok || arr == nil {
+			return nil
+		}
 	}
 	var out []string
 	fieldStores := func(owner ssa.Value) {
@@ -827,4 +865,48 @@ func rowSumOf(v ssa.Value) (over ssa.Value, field int, ok bool) {
 		}
 	}
 	return nil, -1, false
+}
+
+// rowAmountParam: a struct-typed parameter of fn (a struct declared in the module, not a stored type) that has exactly
+// one math.Int field; returns the parameter and the field's index.
+func rowAmountParam(fn *ssa.Function) (*ssa.Parameter, int) {
+	for _, p := range fn.Params {
+		nt, ok := p.Type().(*types.Named)
+		if !ok || nt.Obj().Pkg() == nil || !strings.HasPrefix(nt.Obj().Pkg().Path(), modPath) || strings.Contains(nt.Obj().Pkg().Path(), "/types") {
+			continue
+		}
+		st, ok := nt.Underlying().(*types.Struct)
+		if !ok {
+			continue
+		}
+		idx, n := -1, 0
+		for i := 0; i < st.NumFields(); i++ {
+			if typeString(st.Field(i).Type()) == tInt {
+				idx = i
+				n++
+			}
+		}
+		if n == 1 {
+			return p, idx
+		}
+	}
+	return nil, -1
+}
+
+// isFieldOfParam: v reads field #field of the struct parameter p (directly, or through the parameter's spill slot).
+func isFieldOfParam(v ssa.Value, p *ssa.Parameter, field int) bool {
+	if p == nil {
+		return false
+	}
+	switch x := v.(type) {
+	case *ssa.Field:
+		return x.Field == field && x.X == ssa.Value(p)
+	case *ssa.UnOp:
+		if fa, ok := x.X.(*ssa.FieldAddr); ok && x.Op == token.MUL && fa.Field == field {
+			if al, ok := fa.X.(*ssa.Alloc); ok {
+				return spilledValue(al) == ssa.Value(p)
+			}
+		}
+	}
+	return false
 }
